@@ -80,14 +80,20 @@ func (fs *Filesystem) MkdirAll(path string, perm ros.FileMode) error {
 }
 
 func (fs *Filesystem) MkdirTemp(dir, pattern string) (string, error) {
-	if dir != "" {
-		var err error
-		dir, err = fs.resolvePath(dir, "mkdir")
-		if err != nil {
-			return "", err
+	if dir == "" {
+		if fs.base == "" {
+			// Not rooted: the default temporary directory of the host
+			return os.MkdirTemp("", pattern)
 		}
+		// There is no default temporary directory inside a rooted filesystem:
+		// the one of the host lies outside of the base. Use the base itself.
+		dir = "."
 	}
-	result, err := os.MkdirTemp(dir, pattern)
+	resolved, err := fs.resolvePath(dir, "mkdir")
+	if err != nil {
+		return "", err
+	}
+	result, err := os.MkdirTemp(resolved, pattern)
 	if err != nil {
 		return "", ros.MassagePathError(fs.base, err)
 	}
